@@ -99,7 +99,7 @@ def correspondence(ctx, model_ok=True):
     rng = ctx.rng.fork("c04")
     failures = []
     broken = []
-    n_gen = 1500 if ctx.thorough else 240
+    n_gen = 1500 if ctx.thorough else 720
     gen = progs.generated(rng, PROFILES, n_gen)
     scripts = progs.corpus_scripts()
     corpus = progs.corpus_dir("C04")
